@@ -207,7 +207,7 @@ function findMarker (content, marker) {
 module.exports = {
   id: 'C11',
   level: 'exploration',
-  rule: 'the repository\'s real main.js / js/source-map / js/stack-trace are loaded with the native module replaced by a shim that calls rwharness; generated CommonJS modules with throw sites on known lines (throw statement, TypeError from a null receiver inside an injected sequence on a two-line statement, a hook that throws on a marker, an error inside an eval-created frame, a nested closure, top-level code) are rewritten through the caching Rewriter, compiled under the original file name with Module.prototype._compile and run; each error\'s stack is read through both code paths of getPrepareStackTrace (wrapping a user handler; formatting V8\'s string) and the frame of the rewritten file must carry the original path and a line inside the statement\'s span (with a chained inline map: orig.ts and line+100); frames of other files unchanged; nothing throws. Histories: random sequences of rewrites (modified v1/v2, not modified, syntax error) over 5 file names, after each of which a lookup for every file must use the map of its most recent rewrite (positions unchanged when that rewrite was not modified). distinct_nontrivial = distinct (module, site, path) stacks plus history lookups decided.',
+  rule: 'the repository\'s real main.js / js/source-map / js/stack-trace are loaded with the native module replaced by a shim that calls rwharness; generated CommonJS modules with throw sites on known lines (throw statement, TypeError from a null receiver inside an injected sequence on a two-line statement, a hook that throws on a marker, an error inside an eval-created frame, a nested closure, top-level code) are rewritten through the caching Rewriter, compiled under the original file name with Module.prototype._compile and run; each error\'s stack is read through both code paths of getPrepareStackTrace (wrapping a user handler; formatting V8\'s string) and the frame of the rewritten file must carry the original path and a line inside the statement\'s span (with a chained inline map: orig.ts and line+100); frames of other files unchanged; nothing throws. On-disk lookups: getOriginalPathAndLineFromSourceMap over temporary files with inline / external / missing / invalid / absent maps, compared with an independent decoder where the lookup conventions agree (a token on the same line at or before the column). Histories: random sequences of rewrites (modified v1/v2, not modified, syntax error) over 5 file names, after each of which a lookup for every file must use the map of its most recent rewrite (positions unchanged when that rewrite was not modified). distinct_nontrivial = distinct (module, site, path) stacks plus history lookups decided.',
   assumptions: ['eval frames are only checked through the string-formatting path (the wrapping path has no file name for them)', 'after a failed (syntax error) rewrite nothing is asserted about the file until it is rewritten again', 'lru-cache is a 12-line stand-in with get/set'],
   plan (ctx) {
     const shards = []
@@ -215,6 +215,8 @@ module.exports = {
     for (let k = 0; k < nMods / 8; k++) shards.push({ kind: 'sites', count: 8, stream: k })
     const nHist = ctx.tier === 'thorough' ? 2400 : 256
     for (let k = 0; k < nHist / 8; k++) shards.push({ kind: 'histories', count: 8, stream: 1000 + k })
+    const nDisk = ctx.tier === 'thorough' ? 64 : 16
+    for (let k = 0; k < nDisk; k++) shards.push({ kind: 'disk', stream: 2000 + k })
     return shards
   },
   minEvaluations () { return 100 },
@@ -242,6 +244,56 @@ module.exports = {
         bump('stacks_read', counters.stacks); bump('frames_of_rewritten_files_checked', counters.frames); bump(chain ? 'modules_chained' : 'modules_plain')
         if (rep.samples.length < 1) rep.samples.push({ file, chained: chain, input: clip(mod.code, 900), sites: mod.sites })
       }
+      return rep
+    }
+    if (spec.kind === 'disk') {
+      // getOriginalPathAndLineFromSourceMap: files on disk that carry their own (pre-rewrite) source map
+      const fs = require('fs')
+      const os = require('os')
+      const root = fs.mkdtempSync(path.join(os.tmpdir(), 'verif-c11-'))
+      try {
+        const pkg = P.loadPackage()
+        const r = rng
+        for (let i = 0; i < 12; i++) {
+          const dir = path.join(root, 'd' + i, r.pick(['src', 'dist/deep', 'ñ']))
+          fs.mkdirSync(dir, { recursive: true })
+          const file = path.join(dir, 'gen' + i + '.js')
+          const nLines = r.range(3, 12)
+          const lines = Array.from({ length: nLines }, (_, l) => `function f${l}(a) { return a + ${l} } // line ${l}`)
+          const tokens = []
+          lines.forEach((ln, l) => { if (r.bool(0.85)) { tokens.push({ genLine: l, genCol: 0, src: 0, srcLine: 50 + l * 2, srcCol: 3 }); for (const c of [9, 20]) if (r.bool(0.6)) tokens.push({ genLine: l, genCol: c, src: r.int(2), srcLine: 50 + l * 2 + 1, srcCol: c }) } })
+          const map = { version: 3, sources: ['../ts/orig' + i + '.ts', 'other.ts'], names: [], mappings: S.encodeMappings(tokens) }
+          const kind = r.pick(['inline', 'external', 'external-missing', 'none', 'invalid-json', 'invalid-base64', 'empty-url'])
+          let trailer = ''
+          if (kind === 'inline') trailer = '//# sourceMappingURL=data:application/json;base64,' + Buffer.from(JSON.stringify(map)).toString('base64')
+          else if (kind === 'external') { trailer = '//# sourceMappingURL=gen' + i + '.js.map'; fs.writeFileSync(file + '.map', JSON.stringify(map)) } else if (kind === 'external-missing') trailer = '//# sourceMappingURL=nope.map'
+          else if (kind === 'invalid-json') { trailer = '//# sourceMappingURL=bad.map'; fs.writeFileSync(path.join(dir, 'bad.map'), '{"version":3,') } else if (kind === 'invalid-base64') trailer = '//# sourceMappingURL=data:application/json;base64,@@@@'
+          else if (kind === 'empty-url') trailer = '//# sourceMappingURL='
+          fs.writeFileSync(file, lines.join('\n') + '\n' + trailer + (r.bool() ? '\n' : ''))
+          const usable = kind === 'inline' || kind === 'external'
+          const sorted = tokens.slice().sort((x, y) => x.genLine - y.genLine || x.genCol - y.genCol)
+          for (let q = 0; q < 10; q++) {
+            const line = r.range(1, nLines); const col = r.pick([1, 2, 10, 15, 21, 30])
+            let got
+            try { got = pkg.getOriginalPathAndLineFromSourceMap(file, line, col) } catch (e) { rep.violations.push({ sig: 'disk:lookup-threw:' + kind, what: `getOriginalPathAndLineFromSourceMap threw for a ${kind} map: ${e.message}`, witness: { kind, file, line, col } }); continue }
+            rep.evaluations++
+            rep.distinct.push(hashStr(spec.stream + ':' + i + ':' + q))
+            bump('disk_lookups')
+            const sameLine = sorted.filter(t => t.genLine === line - 1 && t.genCol <= col - 1).pop()
+            if (!usable) {
+              if (got.path !== file || got.line !== line) rep.violations.push({ sig: 'disk:changed-without-usable-map:' + kind, what: `file with ${kind} map reference: position ${line}:${col} came back as ${got.path}:${got.line}`, witness: { kind, file, line, col, got } })
+            } else if (sameLine) {
+              // a token at or before the column on the same line: both lookup conventions agree
+              const expPath = path.join(dir, map.sources[sameLine.src])
+              if (got.path !== expPath || got.line !== sameLine.srcLine + 1) rep.violations.push({ sig: 'disk:wrong-translation:' + kind, what: `position ${line}:${col} of a file with an ${kind} map translated to ${got.path}:${got.line}, expected ${expPath}:${sameLine.srcLine + 1}`, witness: { kind, line, col, got, map } })
+              bump('disk_lookups_with_expected_translation')
+            }
+          }
+          // an unknown file is left alone
+          const u = pkg.getOriginalPathAndLineFromSourceMap(path.join(dir, 'missing' + i + '.js'), 3, 4)
+          if (u.path !== path.join(dir, 'missing' + i + '.js') || u.line !== 3) rep.violations.push({ sig: 'disk:unknown-file-changed', what: `lookup for a file that does not exist returned ${JSON.stringify(u)}`, witness: {} })
+        }
+      } finally { fs.rmSync(root, { recursive: true, force: true }) }
       return rep
     }
     // histories
